@@ -219,6 +219,27 @@ def Norm.ofString : String → Option Norm
 /-- does the composition *normalisation → native ISCARRAY guard* accept an array with these flags? -/
 def wrapperAccepts (n : Norm) (f : Flags) : Bool := (n.apply f).isCArray
 
+/-! ### purity: which buffer an in-place native kernel receives
+
+`haar/ihaar/daubechies/idaubechies` (through `_wavelet_array`), `relabel/remove_regions` (through
+`_as_labeled`) and `surf.integral` call native kernels that overwrite their argument. -/
+
+inductive Target
+  | user    -- the caller's own array
+  | copy    -- a fresh array produced by `copy()`, `astype(...)` or `np.array(...)`
+deriving DecidableEq, Repr
+
+/-- numpy calls that always return a fresh array -/
+def producesCopy : String → Bool
+  | "copy" => true
+  | "astype" => true
+  | "array" => true
+  | _ => false
+
+/-- the wrapper pattern `if not flag: a = <copying call>(a)`; otherwise the user's array goes through -/
+def inplaceTarget (flag : Bool) (calls : List String) : Target :=
+  if !flag && calls.all producesCopy && !calls.isEmpty then .copy else .user
+
 /-! ### driver -/
 
 def viewOf (a : Args) : View :=
